@@ -13,6 +13,7 @@ def program_set(kind):
     ps += gen.generated_programs(3000 if thorough else 400, common.seed())
     if kind in ("join", "all"):
         ps += gen.pair_programs(thorough)
+        ps += gen.ambig_programs() if thorough else gen.ambigif_programs()
     if kind in ("case", "all"):
         ps += gen.case_programs() + gen.case_programs(empty_bodies=True)[::3]
     if kind in ("wait", "join", "all"):
